@@ -180,6 +180,36 @@ def check_code(ctx, v):
             ctx.problem("C18:rows-class:vendor", f"TPM_RC({v:#x}): vendor-defined code explained as {named}", payload)
 
 
+def rows_snapshot(rows):
+    return [(getattr(r, "_name", None), int(getattr(r, "_value", -1)), getattr(r, "_details", None)) for r in rows]
+
+
+def check_history(ctx, v_prev, v):
+    """Two codes in a row: the rows handed out for the first one must not change when the second one is classified, and a code
+    built from a typed number (as the object API does) reads like the same code built from a plain integer."""
+    T = O.lib_type("TPM_RC")
+    U = O.lib_type("UINT32")
+    payload = {"value": v, "previous": v_prev}
+    a = ctx.guard(lambda: T(v_prev).attributes(), "C18:attributes", payload)
+    if a is None:
+        return
+    before = rows_snapshot(a)
+    b = ctx.guard(lambda: (T(v).attributes(), format(T(v), "")), "C18:attributes", payload)
+    if b is None:
+        return
+    ctx.case(("hist", v_prev, v), True)
+    if rows_snapshot(a) != before:
+        ctx.problem("C18:rows-change-later", f"the bit rows of TPM_RC({v_prev:#x}) changed after TPM_RC({v:#x}) was classified: {before} -> {rows_snapshot(a)}", payload)
+        return
+    for name, typed in (("UINT32", lambda: T(U(v))), ("TPM_RC", lambda: T(T(v)))):
+        t = ctx.guard(lambda: (format(typed(), ""), rows_snapshot(typed().attributes()), int(typed())), f"C18:typed-construction:{name}", payload)
+        if t is None:
+            return
+        if t[0] != b[1] or t[1] != rows_snapshot(b[0]) or t[2] != v:
+            ctx.problem("C18:typed-construction", f"TPM_RC({name}({v:#x})) reads {t[0]!r} with rows {[r[0] for r in t[1]]}, TPM_RC({v:#x}) reads {b[1]!r} with rows {[r[0] for r in rows_snapshot(b[0])]}", payload)
+            return
+
+
 def domain():
     lows = [0] + [x for x in range(0x1000) if x & 0x180]
     return [hi | lo for lo in lows for hi in (0, 0x1000, 0x80000000, 0xFFFFF000)]
@@ -194,10 +224,21 @@ def run_shard(ctx):
 
     ctx.run_plain(loop, "codes")
 
+    def history():
+        prev = 0x101
+        for i, v in enumerate(vals):
+            if i % 3 == 0 or v == 0:
+                check_history(ctx, prev, v)
+                prev = v
+
+    ctx.run_plain(history, "history")
+
 
 def finalize(merged):
     return {"coverage": {"codes_in_domain": len(domain())}}
 
 
 def replay(ctx, payload):
+    if "previous" in payload:
+        check_history(ctx, payload["previous"], payload["value"])
     check_code(ctx, payload["value"])
